@@ -1469,7 +1469,12 @@ func (s *SelectStatement) RewriteRegexConditions() {
 		}
 
 		// Handle regex-based condition.
-		rhs := be.RHS.(*RegexLiteral) // This must be a regex.
+		rhs, ok := be.RHS.(*RegexLiteral)
+		if !ok {
+			// The right operand is not a plain regex (`host =~ /x/ + 1`
+			// parses with the arithmetic as the operand); leave it alone.
+			return e
+		}
 
 		vals, ok := matchExactRegex(rhs.Val.String())
 		if !ok {
